@@ -135,7 +135,9 @@ def correspondences(tier, rng):
         return [(fl, xy) for fl, xy in zip(list(g.flags), rel)]
     def oracle_glyf(ps):
         r = impl_glyf_compile(ps)
-        if isinstance(r, Err): return None
+        if isinstance(r, Err):
+            if all(-32768 <= v <= 32767 for _, xy in ps for v in xy): return "valid points (int16 deltas) do not compile: %s on %d points starting %r" % (r.name, len(ps), ps[:4])
+            return None
         got = decode_glyph(len(ps), r.v)
         if got != [(f, tuple(xy)) for f, xy in ps]: return "points %r compile to %r and read back as %r" % (ps[:12], r.v[:30], got[:12])
         return None
@@ -354,7 +356,62 @@ def sweeps(tier, rng):
             except Exception as e:
                 bad = "kern raised %r" % (e,)
             yield (("kern", len(st.kernTable)), bad)
-    return [Sweep("cmap", run_cmap), Sweep("glyf", run_glyf), Sweep("glyf-loca", run_glyf_loca_table), Sweep("gvar", run_gvar), Sweep("name-kern", run_name_kern)]
+    def run_colr():
+        """colour glyphs as layer lists that share runs of layers (what the builder's layer reuse is for), plus transforms and
+        gradients: buildCOLR -> compile -> decompile -> unbuildColrV1 gives back every glyph's layers in order"""
+        from fontTools.colorLib.builder import buildCOLR
+        from fontTools.colorLib.unbuilder import unbuildColrV1
+        from fontTools.ttLib import TTFont, newTable
+        from fontTools.ttLib.tables.otTables import PaintFormat
+        names = "ABCDEFGHJKLMNPQRSTUVW"
+        def leaf(c):
+            i = names.index(c)
+            solid = {"Format": PaintFormat.PaintSolid, "PaletteIndex": i % 7, "Alpha": 1.0 if i % 3 else 0.5}
+            if i % 5 == 4:
+                solid = {"Format": PaintFormat.PaintLinearGradient, "ColorLine": {"Extend": "pad", "ColorStop": [{"StopOffset": 0.0, "PaletteIndex": 1, "Alpha": 1.0}, {"StopOffset": 1.0, "PaletteIndex": 2, "Alpha": 1.0}]},
+                         "x0": 0, "y0": 0, "x1": 100 + i, "y1": 0, "x2": 0, "y2": 50}
+            p_ = {"Format": PaintFormat.PaintGlyph, "Paint": solid, "Glyph": "shape" + c}
+            if i % 4 == 3: p_ = {"Format": PaintFormat.PaintTranslate, "Paint": p_, "dx": 10 * i, "dy": -i}
+            return p_
+        def flatten(paint):
+            f_ = int(paint["Format"])
+            if f_ == int(PaintFormat.PaintColrLayers):
+                out_ = []
+                for sub in paint["Layers"]: out_ += flatten(sub)
+                return out_
+            return [paint]
+        def canon(paint):
+            if isinstance(paint, dict): return {k: canon(v) for k, v in sorted(paint.items())}
+            if isinstance(paint, (list, tuple)): return [canon(v) for v in paint]
+            if isinstance(paint, float) and paint == int(paint): return int(paint)
+            try: return int(paint) if hasattr(paint, "name") else paint
+            except Exception: return paint
+        for it in range(n // 3):
+            runs = ["".join(rng.sample(names, rng.randint(2, 5))) for _ in range(rng.randint(1, 4))]
+            spec = []
+            for gi in range(rng.randint(2, 7)):
+                seq = ""
+                for _ in range(rng.randint(1, 4)):
+                    seq += rng.choice(runs) if rng.chance(65) else "".join(rng.sample(names, rng.randint(1, 3)))
+                spec.append(("g%d" % gi, seq))
+            paints = {b: ({"Format": PaintFormat.PaintColrLayers, "Layers": [leaf(c) for c in seq]} if len(seq) > 1 else leaf(seq[0])) for b, seq in spec}
+            order_ = [".notdef"] + [b for b, _ in spec] + ["shape" + c for c in names]
+            bad = None
+            try:
+                f = TTFont(); f.setGlyphOrder(order_)
+                f["COLR"] = buildCOLR(paints, glyphMap={g: i for i, g in enumerate(order_)}, allowLayerReuse=rng.chance(85))
+                data = f["COLR"].compile(f)
+                f2 = TTFont(); f2.setGlyphOrder(order_); t = newTable("COLR"); t.decompile(data, f2)
+                got = unbuildColrV1(t.table.LayerList, t.table.BaseGlyphList)
+                for b, seq in spec:
+                    want = [canon(leaf(c)) for c in seq]
+                    have = [canon(x) for x in flatten(got[b])]
+                    if have != want:
+                        bad = "colour glyph %s = %s reads back with %d layers instead of %d: %r" % (b, seq, len(have), len(want), [x.get("Glyph") or x.get("Paint", {}).get("Glyph") for x in have]); break
+            except Exception as e:
+                bad = "COLR round trip raised %r for %r" % (e, spec)
+            yield (("colr", tuple(spec)), bad)
+    return [Sweep("cmap", run_cmap), Sweep("glyf", run_glyf), Sweep("glyf-loca", run_glyf_loca_table), Sweep("gvar", run_gvar), Sweep("name-kern", run_name_kern), Sweep("colr", run_colr)]
 
 def classify(sweep, case, failure):
     return None
